@@ -4,7 +4,7 @@ import gen
 from props import util
 
 THEOREMS = ['C04_value_accounting', 'C04_asset_total', 'C04_wf_check_sound']
-CFG = {'p_coarse': 0.25, 'p_periodic': 0.25, 'T': (3, 8), 'n_assets': (1, 4), 'nodes': (1, 3), 'p_wacc': 0.5,
+CFG = {'p_full_exec': 0.3, 'p_no_simult': 0.2, 'p_coarse': 0.25, 'p_periodic': 0.25, 'T': (3, 8), 'n_assets': (1, 4), 'nodes': (1, 3), 'p_wacc': 0.5,
        'kinds': {'SimpleContract': 2, 'Contract': 2, 'Transport': 2, 'Storage': 2, 'MultiCommodityContract': 1, 'OrderBook': 3, 'ExtendedTransport': 1, 'ScaledAsset': 3, 'StructuredAsset': 2}}
 
 
@@ -54,6 +54,11 @@ def run(ctx):
     specs = util.corpus(ctx.prop) + gen.gen_many(ctx.seed, n, CFG, 'c04_')
     util.add_split(specs)
     specs += util.orderbook_tail_specs(ctx.seed, 10 if ctx.tier == 'quick' else 60, 'c04ob_')
+    # robust target (reported value = value under the original prices), also for portfolios with binary variables
+    rob = gen.gen_many(ctx.seed, n // 3, dict(CFG, p_coarse=0.0, p_periodic=0.0, p_full_exec=0.6, p_no_simult=0.4), 'c04r_')
+    for sp in rob:
+        sp['opts']['robust'] = 2
+    specs += rob
     specs = ctx.specs(specs)
     res = C.run_impl('portfolio', specs)
     exprs, owners = [], []
